@@ -90,6 +90,10 @@ def check_case(case, seed, entity_mode="random", options_override=None, want_num
             return out
         if exact_ref is None:
             forms = [force_degrees(f, default_degree(f)) for f in forms]
+        orig_forms = list(forms)
+        if (options or {}).get("part") == "diagonal":
+            # the rewriting compile_forms applies before code generation (diagonal blocks of mixed spaces)
+            forms = ffx.jit_forms(forms, options)
         cap = ffx.compile_case(forms, options)
     except CaseTimeout:
         raise
@@ -134,10 +138,18 @@ def check_case(case, seed, entity_mode="random", options_override=None, want_num
                 runc.call_kernel(b.kernel(kr["name"]), A, dd["w"], dd["c"], dd["x"], dd["e"], dd["p"])
                 sc = complex if "complex" in scalar else float
                 oform = fd.original_form
+                if k["ir"].part.name == "diagonal":
+                    # diagonal of the form the user wrote, not of what compile_forms made of it
+                    oform = orig_forms[[id(x) for x in cap.analysis.form_data].index(id(fd))]
                 if exact_ref is not None:
                     # the kernel keeps FFCx's own degree estimate / metadata; the oracle integrates with a rule of
                     # degree exact_ref (exact for the polynomial integrands of these cases)
-                    oform = ufl.Form([g.reconstruct(metadata={"quadrature_degree": exact_ref}) for g in oform.integrals()])
+                    def _md(g):
+                        md = dict(g.metadata() or {})
+                        if md.get("quadrature_degree", -1) < 0 and md.get("quadrature_rule") != "custom":
+                            md["quadrature_degree"] = exact_ref      # no degree requested: must be exact
+                        return md
+                    oform = ufl.Form([g.reconstruct(metadata=_md(g)) for g in oform.integrals()])
                 exp = oracle.reference_tensor(oform, itype, sid, cells, wvals, cvals, e or [0], scalar=sc,
                                               diagonal=(k["ir"].part.name == "diagonal"))
                 exp = np.asarray(exp).reshape(-1)
@@ -289,11 +301,17 @@ def check_expression_case(case, seed):
             worst = 0.0
             for ent in ents:
                 dd = inputs.make(con, rng, scalar)
+                # w holds the coefficients that survive differentiation (UFL's expand_derivatives), in the order of
+                # the expression as written -- the packing the descriptor's original_coefficient_positions announces
+                kept = ufl.algorithms.extract_coefficients(ufl.algorithms.expand_derivatives(expr))
                 wvals, off = {}, 0
                 for cf in coeffs:
                     n = int(cf.ufl_element().dim)
-                    wvals[cf] = [dd["w"][off:off + n]]
-                    off += n
+                    if cf in kept:
+                        wvals[cf] = [dd["w"][off:off + n]]
+                        off += n
+                    else:
+                        wvals[cf] = [np.round(rng.uniform(-1, 1, size=n) * 64) / 64]     # cannot influence the value
                 cvals, off = {}, 0
                 for c in consts:
                     n = int(np.prod(c.ufl_shape, dtype=int))
